@@ -20,6 +20,6 @@ for p in C01 C02 C03 C04 C05 C06 C07 C08 C09 C10 C11 C12 C14 C15 C17 C18 C19 C20
   echo "  $p exit=$rc $rule"
   RES="$RES\"$p\": $rc, "
 done
-git -C /repo checkout -- .
+git -C /repo checkout -- . && git -C /repo clean -fdq
 rm -rf evidence && mv .work/evidence.benign evidence
 echo "{\"id\": \"$ID\", \"build\": \"$BUILD\", \"suite\": \"$SUITE\", \"checks\": {${RES%, }}}" > "$OUT/meta.json"
